@@ -699,6 +699,28 @@ def _judge(kind, payload, opts, idx, enumerate_faults=True, cross_check=False):
                 if getattr(r.stdout_obj, 'fired', False):
                     stats['faults']['stdout:' + sf] = stats['faults'].get('stdout:' + sf, 0) + 1
                 viol += [(c, d, {'stdout_fault': sf}) for c, d in v]
+        if not viol:
+            # legal but unusual devices: reads that return 1 or 3 bytes at a time (multi-byte characters and CR LF
+            # pairs split between reads), writes that accept only 7 bytes at a time, a signal during the k-th
+            # read or write (EINTR): the outcome must be exactly the fault-free one
+            base = r0.fs.files.get('out.s' if opts.get('o') else 'in.hid.s') if r0.fs.created else None
+            rw = [i for i, c in enumerate(plan0.calls) if c[0] in ('read', 'write')]
+            plans = [('short_read', FaultPlan(short_read=1 if len(data) <= 6000 else 61)), ('short_read', FaultPlan(short_read=3)),
+                     ('short_write', FaultPlan(short_write=7 if (base is None or len(base) <= 20000) else 997))]
+            plans += [('eintr', FaultPlan(eintr_at=i)) for i in (rw[:2] + rw[-2:])]
+            for name, plan in plans:
+                v, r = cli_oracle(data, opts, asm, accepted, plan)
+                stats['fault_points'] += 1
+                if plan.shorts or plan.eintr_fired:
+                    stats['faults'][name] = stats['faults'].get(name, 0) + 1
+                viol += [(c, d + f' ({name})', {'slow_io': name}) for c, d in v]
+                got = r.fs.files.get('out.s' if opts.get('o') else 'in.hid.s') if r.fs.created else None
+                if not v and (r.status != r0.status or got != base):
+                    viol.append(('cli-slow-io-dependent', f'with {name} the tool exits {r.status} ({"no" if got is None else len(got)} bytes '
+                                 f'of output), without it {r0.status} ({"no" if base is None else len(base)} bytes): '
+                                 f'{r.stderr.strip()[-160:]!r}', {'slow_io': name}))
+                if viol:
+                    break
         if not viol and text is not None and any(b >= 0x80 for b in data):
             # the process environment: a locale whose encoding is not UTF-8 must change nothing (same status,
             # same file) - the fake file system decodes an open() that names no encoding with it, as CPython does
